@@ -2336,6 +2336,10 @@ fn table_names(src: &Src, prefix: &str) -> Result<(String, usize, usize), String
             let (s, e) = br(f.span());
             lo = lo.min(s);
             hi = hi.max(e);
+            // a constructor outside the two recognised shapes is left out of the table (and named in the generated
+            // text): contracts that mention it then fail to resolve, and the `names` module, whose lemmas speak about
+            // the COMPLETE family, is reported undecided by the engine.  Every other module stays decidable.
+            let modelled: Result<(Vec<String>, Vec<String>, Vec<String>), String> = (|| {
             let params: Vec<String> = f
                 .sig
                 .inputs
@@ -2354,7 +2358,7 @@ fn table_names(src: &Src, prefix: &str) -> Result<(String, usize, usize), String
             };
             let (pieces, args): (Vec<String>, Vec<String>) = match tail {
                 syn::Expr::Macro(m) if m.mac.path.is_ident("format_ident") => {
-                    let fa: FormatIdentArgs = syn::parse2(m.mac.tokens.clone()).map_err(|e| e.to_string())?;
+                    let fa: FormatIdentArgs = syn::parse2(m.mac.tokens.clone()).map_err(|e| format!("{}: {}", fname, e))?;
                     let pieces: Vec<String> = fa.fmt.split("{}").map(|x| x.to_string()).collect();
                     if pieces.len() != fa.args.len() + 1 || fa.fmt.replace("{}", "").contains('{') {
                         return Err(format!("{}: unsupported format string {:?}", fname, fa.fmt));
@@ -2380,6 +2384,15 @@ fn table_names(src: &Src, prefix: &str) -> Result<(String, usize, usize), String
                     }
                 }
                 _ => return Err(format!("{}: unexpected body", fname)),
+            };
+            Ok((params, pieces, args))
+            })();
+            let (params, pieces, args) = match modelled {
+                Ok(x) => x,
+                Err(e) => {
+                    out.push_str(&format!("// R9-UNMODELLED: {}\n", e.replace('\n', " ")));
+                    continue;
+                }
             };
             for p in &pieces {
                 if !lits.contains(p) {
